@@ -29,6 +29,10 @@ type Flow struct {
 	// Opaque functions are never entered (their call is an origin of its own); exported
 	// functions are always opaque (API boundaries such as EventType).
 	Opaque map[*ssa.Function]bool
+	// ctor: fields of "captured-state" structs — unexported struct types of the module all
+	// of whose field stores initialise a freshly allocated object (a closure converted into
+	// a struct with methods). A load of such a field has the origins of the stored values.
+	ctor map[string][]ssa.Value
 }
 
 func NewFlow(p *Prog, cells *cellIndex) *Flow {
@@ -37,6 +41,54 @@ func NewFlow(p *Prog, cells *cellIndex) *Flow {
 
 		"fmt.Errorf":            {-1}, "fmt.Sprintf": {-1}, "fmt.Sprint": {-1},
 	}}
+}
+
+// ctorFields computes Flow.ctor on first use.
+func (f *Flow) ctorFields() map[string][]ssa.Value {
+	if f.ctor != nil {
+		return f.ctor
+	}
+	f.ctor = map[string][]ssa.Value{}
+	stores := map[string][]ssa.Value{}
+	dirty := map[string]bool{} // type names with a store into an object that is not fresh
+	for _, fn := range f.p.Funcs() {
+		if !f.p.InScope(fn) {
+			continue
+		}
+		for _, b := range fn.Blocks {
+			for _, in := range b.Instrs {
+				st, ok := in.(*ssa.Store)
+				if !ok {
+					continue
+				}
+				fa, ok := st.Addr.(*ssa.FieldAddr)
+				if !ok {
+					continue
+				}
+				pt, ok := fa.X.Type().Underlying().(*types.Pointer)
+				if !ok {
+					continue
+				}
+				nt, ok := pt.Elem().(*types.Named)
+				if !ok || nt.Obj().Exported() || nt.Obj().Pkg() == nil || !f.p.Mods[nt.Obj().Pkg().Path()] {
+					continue
+				}
+				tn := nt.Obj().Name()
+				if _, fresh := stripConv(fa.X).(*ssa.Alloc); !fresh {
+					dirty[tn] = true
+					continue
+				}
+				key := tn + "." + fieldName(fa.X.Type(), fa.Field)
+				stores[key] = append(stores[key], st.Val)
+			}
+		}
+	}
+	for k, vs := range stores {
+		if !dirty[k[:strings.Index(k, ".")]] {
+			f.ctor[k] = vs
+		}
+	}
+	return f.ctor
 }
 
 type flowRun struct {
@@ -186,7 +238,14 @@ func (r *flowRun) walk(v ssa.Value) {
 			case *ssa.FreeVar:
 				r.walk(a)
 			case *ssa.FieldAddr:
-				r.out["field:"+typeName(a.X.Type())+"."+fieldName(a.X.Type(), a.Field)] = true
+				key := typeName(a.X.Type()) + "." + fieldName(a.X.Type(), a.Field)
+				if vs, ok := r.f.ctorFields()[key]; ok && len(vs) > 0 {
+					for _, sv := range vs {
+						r.walk(sv)
+					}
+					return
+				}
+				r.out["field:"+key] = true
 			case *ssa.IndexAddr:
 				r.out["elem"] = true
 				r.walk(a.X)
